@@ -43,6 +43,9 @@ def case_strategy(draw, big=False):
         if kind == 'lumped':
             l = draw(gen.lumped_load(kinds=('z', 'rlc', 'laplace')))
             l['attach'] = draw(st.lists(st.integers(0, len(topo.pulses) - 1), min_size=1, max_size=2, unique=True))
+            if draw(st.integers(0, 3)) == 0:
+                # the same load attached once more to one of its pulses (series loading): one more load line
+                l['attach'] = l['attach'] + [l['attach'][0]]
             lds.append(l)
         elif kind == 'skin' and not any(x['kind'].startswith('skin') for x in lds):
             lds.append({'kind': 'skin_c', 'v': gen.r6(draw(gen.logf(1e4, 1e8))), 'tag': None})
